@@ -240,6 +240,8 @@ SEEDS = {
  # ---- round 5
  "S-C01-5": ("C01", "CompilerBase keeps the register -> matrix-index function per TOTAL qubit count and reuses it between compile() calls",
              "one compiler object compiling two circuits with the same number of qubits but another emitter / photon split: emitter gates land on the wrong qubit"),
+ "S-C02-5": ("C02", "StabilizerTableau._reset (behind expand / shrink) keeps the new phase vector only if its length equals the OLD qubit count, else zeros",
+             "a stabilizer target whose generators carry a minus sign (|G> in another gauge, e.g. out of a stabilizer simulation): the signs are dropped when the emitters are appended and the solver builds a circuit for an orthogonal state"),
  "S-C03-5": ("C03", "emitter_sorted takes the emitter number of each relabelled graph as the maximal REAL (float) rank of the adjacency block across each cut",
              "a graph (>= 6 vertices) with a cut block whose rank over the reals exceeds its GF(2) rank: wrong emitter number, wrong order"),
  "S-C04-5": ("C04", "find_incompatible_edges follows the quantum wires only (classical wires filtered out of the ancestor / descendant search)",
@@ -273,6 +275,7 @@ SEEDS = {
              "one compiler object, two circuits with the same total size and another emitter / photon split: a cached emitter gate acts on the wrong position"),
 }
 STRENGTHENED = {
+ "S-C02-5": "every third 3-5 vertex target also as a stabilizer state in a random gauge with signed generators (products of the textbook ones), built independently",
  "S-C03-5": "emitter_sorted on pools of 6-vertex graphs most of which have a cut block with different real and GF(2) rank",
  "S-C06-5": "every second noisy circuit is compiled by both backends as the SAME object (no copy in between)",
  "S-C07-5": "9-12 qubit walks judged at group level (512-4096 elements) with partial traces dropping the last and 1-2 other positions",
